@@ -16,6 +16,9 @@ CREDS = {
     "rsa": ("serverX509Cert.pem", "serverX509Key.pem"),
     "rsa1024": ("rsa1024Cert.pem", "rsa1024Key.pem"),
     "rsa3072": ("rsa3072Cert.pem", "rsa3072Key.pem"),
+    # modulus lengths that are not a multiple of 8 bits
+    "rsa1031": ("rsa1031Cert.pem", "rsa1031Key.pem"),
+    "rsa2047": ("rsa2047Cert.pem", "rsa2047Key.pem"),
     "rsapss": ("serverRSAPSSCert.pem", "serverRSAPSSKey.pem"),
     "rsapss_sig": ("serverRSAPSSSigCert.pem", "serverRSAPSSSigKey.pem"),
     "ecdsa": ("serverECCert.pem", "serverECKey.pem"),
